@@ -67,6 +67,33 @@ SUMMARY.update({
  'C14-D': ('C14', 'mProtectCrossPage loop bound `p < last`', 'write whose last byte is exactly the first byte of a page: that page is never unlocked'),
 })
 
+SUMMARY.update({
+ 'C04-C': ('C04', 'InExpr.Eval variadic branch builds its expanded vector by appending to input[:last] (aliases the caller\'s argument slice)', 'variadic target, an In clause registered before another clause, a call the In clause rejects: later clauses see a damaged argument vector'),
+ 'C04-D': ('C04', 'When.invoke tries all When clauses before all In clauses', 'In clause registered before an overlapping When clause, call in the overlap'),
+ 'C05-C': ('C05', 'AddResult drops a result equal to the previous one', 'sequence with two equal consecutive results followed by a different one (retry stubs)'),
+ 'C05-D': ('C05', 'sequence-exhausted test `==` instead of `>=`', 'simultaneous callers push the cursor past length: index out of range afterwards'),
+ 'C08-C': ('C08', 'Cancel skips the restore when the current value is DeepEqual to the backup', 'pointer/map/slice variable mocked with a distinct object deep-equal to the original'),
+ 'C08-D': ('C08', 'unexported-variable Set rebuilds the embedded mocker each time', 'by-name path, two or more Set/Apply before Cancel/Reset'),
+ 'C09-C': ('C09', 'cast() rebuilt on reflect.NewAt assuming the data word is an address', 'stand-in struct consisting of a single pointer-like word (struct{p *T}, map, chan, func)'),
+ 'C09-D': ('C09', 'numeric equality through float64 conversion', 'When values above 2^53 that round alike'),
+ 'C10-C': ('C10', 'function-name index (map) where the last duplicate wins', 'names that occur twice in the pclntab (function + ABI wrapper): the wrapper\'s address is returned'),
+ 'C10-D': ('C10', 'fallback to the ELF symbol table for names absent from the pclntab, reusing the pclntab bias', 'externally linked (cgo) unstripped binary and a symbol only in the ELF table'),
+ 'C13-C': ('C13', 'signature check skipped for a target already in the patch table', 'target mocked correctly once before (even if reset since), then an ill-formed callback'),
+ 'C13-D': ('C13', 'stand-in struct size check only rejects larger values', 'struct result or When argument given a smaller struct of another type'),
+ 'C15-C': ('C15', 'divert jump uses sign-extending `mov rdx, imm32` when the address fits 32 bits', 'replacement func value between 2 and 4 GiB'),
+ 'C15-D': ('C15', 'rel8 short form of the trampoline return jump reuses the rel32 displacement', 'trampoline within about +-128 bytes of the origin'),
+ 'C16-C': ('C16', 'three-byte VEX prefix advanced by one byte', 'C4-encoded VEX instructions (hand-written AVX assembly)'),
+ 'C16-D': ('C16', 'IsREX range check off by one (0x4F not a REX prefix)', 'instructions with REX.WRXB (extended reg, index and base)'),
+ 'C17-C': ('C17', 'B.cond table row mask loses bit 4', 'words 0x54...... with bit 4 set decode although unallocated'),
+ 'C17-D': ('C17', 'BFXPreferred predicate merged, 64-bit unsigned guard lost', 'UBFM Xd,Xn,#0,#7|15|31 decodes as UBFM instead of UBFX'),
+ 'C18-C': ('C18', 'InExpr.Eval moves a matching alternative to the front with an off-by-one copy', 'In with >= 3 alternatives evaluated repeatedly: a later query for the dropped alternative is rejected'),
+ 'C18-D': ('C18', '`==` shortcut for comparable composite types before DeepEqual', 'struct/array with an inner pointer to an equal but distinct pointee, or interface field holding a slice'),
+ 'C19-C': ('C19', 'logger caller prefix trims the path without guarding a missing slash', 'logging on and a frame whose file name has no directory (//line directives of generated code)'),
+ 'C19-D': ('C19', 'isZero follows pointers', 'logging on and a pointer argument/result into a cycle whose emptiness needs a deep walk (rings, container/list)'),
+ 'C20-C': ('C20', 'mmap length rounded down to whole pages', 'request larger than a page and not a multiple of it'),
+ 'C20-D': ('C20', 'end of the fallback reserve computed from the ABI wrapper\'s address', 'mmap refused and the reserve used up: regions handed out past the real end'),
+})
+
 for sid, (prop, change, needs) in sorted(SUMMARY.items()):
     d = os.path.join(HERE, 'seeded', sid)
     tj = os.path.join(d, 'triage.json')
